@@ -277,6 +277,7 @@ func runC12(c *Ctx) {
 	// "LOOKUP and DELETE only on directories" is decided on the type the attributes report; the request path must
 	// not be able to make the backend record another type for the object (borrowed from C04)
 	runC04ChmodType(c, P)
+	runShortIsError(c, P)
 
 	ent, err := p.entrySet()
 	if err != nil {
